@@ -459,6 +459,11 @@ def run(chk, tier):
         phases[name] = round(time.time() - t0 - sum(phases.values()), 1)
     b = vlib.vbuild()
     wd = vlib.scratch("c13")
+    # the shared build cache keeps few entries: run a private copy of the executable
+    b = dict(b)
+    exe = os.path.join(wd, "aldor-under-test")
+    shutil.copy2(b["aldor"], exe)
+    b["aldor"] = exe
     prefix = _setarch()
     rng = random.Random(chk.seed)
     per_route = {}
